@@ -84,6 +84,13 @@ type VerifSrv struct {
 
 	// OnAccess receives ownership events (variable, goroutine role).
 	OnAccess func(variable, role string)
+
+	// OnStep receives the steps of the GOAWAY / new-stream handshake, each
+	// logged right after the memory operation it names: "ga.flag" (closing flag
+	// raised), "ga.read" (lastID read, v), "ga.sent" (GOAWAY queued with
+	// last-stream-id v); "sl.publish" (lastID := v), then "sl.refuse" or
+	// "sl.accept" (v) once the closing flag has been consulted.
+	OnStep func(ev string, v uint32)
 }
 
 type verifSrvHook struct{ v *VerifSrv }
@@ -191,6 +198,14 @@ func vAccess(owner any, variable, role string) {
 	if sc, ok := owner.(*serverConn); ok && sc.vh.v != nil {
 		if f := sc.vh.v.OnAccess; f != nil {
 			f(variable, role)
+		}
+	}
+}
+
+func vStep(sc *serverConn, ev string, v uint32) {
+	if sc.vh.v != nil {
+		if f := sc.vh.v.OnStep; f != nil {
+			f(ev, v)
 		}
 	}
 }
